@@ -169,13 +169,25 @@ func LoadCheckpointList(fs storage.FileSystem, dataOwnership kv.DataOwnership, c
 
 	// Merge the checkpoint documents into the first
 	compositeCheckpointDoc, rest := checkpointDocs[0], checkpointDocs[1:]
+	if len(rest) > 0 {
+		// Levels below L0 must be sorted and non-overlapping, but tables of
+		// different instances can overlap: a table shared after an earlier rescale
+		// still holds the rows of all its former owners. L0 is the level that
+		// allows overlapping tables (versions are resolved by sequence number), so
+		// every table of a merged checkpoint starts there and compaction sorts
+		// them into levels again.
+		for levelIndex := 1; levelIndex < len(compositeCheckpointDoc.Levels); levelIndex++ {
+			compositeCheckpointDoc.Levels[0] = append(compositeCheckpointDoc.Levels[0], compositeCheckpointDoc.Levels[levelIndex]...)
+			compositeCheckpointDoc.Levels[levelIndex] = nil
+		}
+	}
 	for _, doc := range rest {
 		// Merge WAL handles
 		compositeCheckpointDoc.WALs = append(compositeCheckpointDoc.WALs, doc.WALs...)
 
 		// Merge level list
-		for levelIndex, level := range doc.Levels {
-			compositeCheckpointDoc.Levels[levelIndex] = append(compositeCheckpointDoc.Levels[levelIndex], level...)
+		for _, level := range doc.Levels {
+			compositeCheckpointDoc.Levels[0] = append(compositeCheckpointDoc.Levels[0], level...)
 		}
 	}
 
